@@ -51,7 +51,7 @@ class Stream(Part):
             "x link, or None; routes: raw Segment renderable, Text.assemble, str with print(style=)) x ordered pair of {None, standard, 256, truecolor, "
             "windows} x no_color x force_terminal x legacy_windows; non-trivial = some segment has >=2 attributes and both colours, or a link, or the "
             "pair has different colour depth with a coloured segment")
-    budget = {"quick": (8, 800), "thorough": (16, 12000)}
+    budget = {"quick": (16, 800), "thorough": (16, 12000)}
 
     def strategy(self, tier):
         return st.builds(
